@@ -6,14 +6,14 @@ id=$1; x=$2; wt=/tmp/seed-$id; out=$wt/OUT/$x
 cd $wt || exit 2
 git checkout -q -- src 2>/dev/null
 export CARGO_NET_OFFLINE=true
-r0=$(cargo test --offline --test seed_demo_$x 2>&1 | grep -E "^test result" | tail -1)
+r0=$(cargo test --offline $FEATURES --test seed_demo_$x 2>&1 | grep -E "^test result" | tail -1)
 git apply $out/patch.diff || { echo "$id$x: patch does not apply"; exit 1; }
 b1=$(cargo build --offline --no-default-features --features mmap 2>&1 | grep -cE "^error")
 b2=$(cargo build --offline --no-default-features --features tokio-runtime,mmap 2>&1 | grep -cE "^error")
 mv tests tests.aside
 suite=$(cargo test --workspace --no-fail-fast --offline --lib 2>&1 | grep -E "^test result" | head -1)
 mv tests.aside tests
-r1=$(cargo test --offline --test seed_demo_$x 2>&1 | grep -E "^test result" | tail -1)
+r1=$(cargo test --offline $FEATURES --test seed_demo_$x 2>&1 | grep -E "^test result" | tail -1)
 git checkout -q -- src
 echo "$id$x | without: $r0 | with: $r1 | suite: $suite | builderrs: $b1 $b2"
 case "$r0" in *"ok."*) ;; *) echo "$id$x: demo does not pass on the unchanged tree"; exit 1;; esac
